@@ -28,7 +28,7 @@ META = {
                      '0,-1,1.5,"2",True,None',
     },
     'bounds': {'quick': 'sweep horizon 12; multi horizon 6', 'thorough': 'sweep horizon 16; multi horizon 9'},
-    'assumptions': ['window attributes are not changed after construction'],
+    'assumptions': ['window attributes are not changed after registration'],
 }
 
 # (key, id, priority, start, end, frequency); w1b is a different object registered under w1's id with another window;
@@ -106,8 +106,19 @@ def sweep_case(case):
         old.systems.remove_system('s')
         s.model = model
         del log[:]
+    elif case.get('kind') == 'assigned':
+        # a System subclass that calls the base constructor with defaults and sets its window afterwards (still before
+        # it is registered)
+        s = Rec('s', model, 0, 0, DEFAULT, 1)
+        s.start, s.frequency = start, freq
+        if end != DEFAULT:
+            s.end = end
     else:
         s = (Rec.Collector if case.get('kind') == 'collector' else Rec)('s', model, 0, start, end, freq)
+    if case.get('kind') == 'new_manager':
+        # the model's scheduler object is replaced by a fresh one before anything is registered (a model installing its
+        # own SystemManager): Model.execute / Model.timestep follow the scheduler the model holds now
+        model.systems = Core.SystemManager(model)
     if end == DEFAULT and s.end != maxsize:
         raise Violation('default end is not sys.maxsize', expected=maxsize, observed=s.end)
     for t in range(horizon):
@@ -157,6 +168,10 @@ def sweep_cases(tier):
                     for kind in ('system', 'collector'):
                         yield {'leg': 'window_sweep', 'start': start, 'end': end, 'freq': freq, 'reg': reg,
                                'horizon': horizon, 'kind': kind}
+                    if reg in (0, 3):
+                        for kind in ('assigned', 'new_manager'):
+                            yield {'leg': 'window_sweep', 'start': start, 'end': end, 'freq': freq, 'reg': reg,
+                                   'horizon': horizon, 'kind': kind}
                     if reg in (0, 2, 5):
                         for pre in (3, 5) if tier == 'quick' else (1, 3, 5, 8):
                             yield {'leg': 'window_sweep', 'start': start, 'end': end, 'freq': freq, 'reg': reg,
